@@ -115,6 +115,7 @@ func drive() {
 		mlInterp:        e.Quarantined("mlinterp-fault"),
 		byteNewline:     e.Quarantined("byte-newline"),
 		nonUTF8String:   e.Quarantined("nonutf8-string"),
+		staticInClosure: e.Quarantined("undef-class-static-in-closure"),
 	}
 
 	// phase 1: span invariants
@@ -174,6 +175,9 @@ func regressionSpanCases() []spanCase {
 		mk("cr-line-comment", "script", "$c = 1;\n// old mac\r$d = 2;\n$e = 3;\n"),
 		mk("byte-newline", "script", "$b = b'p\nq';\n$c = 1;\n"),
 		mk("nonutf8-string", "script", "$a = \"x\xffy\";\n"),
+		mk("bom-template", "template", "\xef\xbb\xbf<?php\n$total = 40 + 2;\necho $total, \"\\n\";\n"),
+		mk("bom-script", "script", "\xef\xbb\xbf$total = 40 + 2;\necho $total;\n"),
+		mk("bom-shebang-script", "script", "\xef\xbb\xbf#!/usr/bin/env origami\n<?php\n$a = 1;\n"),
 		mk("plain", "script", "$a = 1;\n$b = \"x\ny\";\necho $a;\n"),
 	}
 }
@@ -230,8 +234,37 @@ func (d *driver) spanCases() {
 	e.Extra("corpus_files", len(corpus))
 
 	// corpus files with injections at seeded token boundaries / CRLF conversion
-	r := e.Rand("span-inject")
 	flush(true)
+
+	// prefix variants: every corpus file and generated programs behind each strippable prefix,
+	// in both lexing modes
+	for _, c := range corpus {
+		for _, px := range sourcePrefixes {
+			if d.q.shebang && strings.Contains(px.Name, "shebang") {
+				continue
+			}
+			for _, m := range []string{"script", "template"} {
+				cases = append(cases, spanCase{ID: "prefix/" + px.Name + "/" + c.rel + "/" + m, Family: "prefix", Mode: m, Src: []byte(px.Text + c.src)})
+			}
+		}
+		flush(false)
+	}
+	r := e.Rand("span-prefix")
+	for i, n := 0, e.Pick(1500, 20000); i < n; i++ {
+		p := genProgram(r, false, d.q)
+		p.Shebang = false
+		src, _ := p.render()
+		px := sourcePrefixes[r.Intn(len(sourcePrefixes))]
+		if d.q.shebang && strings.Contains(px.Name, "shebang") {
+			px = sourcePrefixes[0]
+		}
+		for _, m := range []string{"script", "template"} {
+			cases = append(cases, spanCase{ID: fmt.Sprintf("prefix/%s/gen%d/%s", px.Name, i, m), Family: "prefix", Mode: m, Src: []byte(px.Text + src)})
+		}
+		flush(false)
+	}
+	flush(true)
+	r = e.Rand("span-inject")
 	nInject := e.Pick(8000, 100000)
 	for i := 0; i < nInject && len(corpus) > 0; i++ {
 		c := corpus[r.Intn(len(corpus))]
@@ -562,6 +595,9 @@ func (d *driver) errlocRegression() {
 		mk("zy", false, false, nil, "mlinterp-heredoc-method"),
 		mk("zy", false, false, nil, "mlinterp-dq-call"),
 	}
+	sc := mk("php", false, false, nil, "undef-class-static")
+	sc.Wrap = "closure"
+	progs = append(progs, sc)
 	var cases []*locCase
 	for i, p := range progs {
 		cases = append(cases, &locCase{idx: i, p: p, msg: p.Fault.Nonce})
